@@ -421,7 +421,7 @@ theorem readBlock_spec (hR : Regular S payload G N) {fuel : Nat} {s : ZFile σ} 
             List.drop_drop]
         eof := fun h => by
           obtain ⟨e1, e2, e3⟩ := hI.eof h
-          exact ⟨by omega, e2, e3⟩
+          exact ⟨by simp only; omega, e2, e3⟩
         size := hI.size }
   · simp only [hfast, if_false]
     rw [hI.off, pySliceFrom_nat]
@@ -442,6 +442,766 @@ theorem readBlock_spec (hR : Regular S payload G N) {fuel : Nat} {s : ZFile σ} 
       (by split <;> omega)
     exact ⟨s', o', cs', by simpa using h1, h2, h3, h4⟩
 
+theorem checkCanRead_ok {s : ZFile σ} {o : Nat} {cs : List Bytes} (hI : InvAt S payload G N s o cs) :
+    checkCanRead s = .ok () := by
+  unfold checkCanRead
+  rcases hI.mode with h | h <;> rw [h]
+
+/-- What `read(size)` returns on the reference stream. -/
+def specRead (payload : Bytes) (pos : Nat) (size : Int) : Bytes :=
+  if size < 0 then payload.drop pos else (payload.drop pos).take size.toNat
+
+theorem read_spec (hR : Regular S payload G N) {fuel : Nat} {s : ZFile σ} {o : Nat} {cs : List Bytes}
+    (hI : InvAt S payload G N s o cs) (hf : cs.length + 2 ≤ fuel) (size : Int) :
+    ∃ s' o' cs', read S fuel size s = .ok (s', specRead payload s.pos size) ∧
+      InvAt S payload G N s' o' cs' ∧ cs'.length ≤ cs.length ∧
+      s'.pos = s.pos + (specRead payload s.pos size).length := by
+  unfold read specRead
+  rw [checkCanRead_ok hI]
+  simp only
+  by_cases h0 : size = 0
+  · subst h0
+    exact ⟨s, o, cs, by simp, hI, Nat.le_refl _, by simp⟩
+  · simp only [h0, if_false]
+    by_cases hneg : size < 0
+    · simp only [hneg, if_true]
+      obtain ⟨s', o', h1, h2, h3, h4⟩ := readAll_spec hR hI hf
+      refine ⟨s', o', [], h1, h2, by simp, ?_⟩
+      have := hI.pos_le
+      rw [h4, List.length_drop]; omega
+    · simp only [hneg, if_false]
+      exact readBlock_spec hR hI (by omega) hf
+
+theorem takeLine_cons_ne (b : UInt8) (r : Bytes) (h : b ≠ 10) :
+    Spec.takeLine (b :: r) = b :: Spec.takeLine r := by
+  simp [Spec.takeLine, h]
+
+theorem readlineLoop_spec (hR : Regular S payload G N) (fuel : Nat) :
+    ∀ (k : Nat) (s : ZFile σ) (o : Nat) (cs : List Bytes) (res : Bytes),
+      InvAt S payload G N s o cs → cs.length + 2 ≤ fuel → payload.length - s.pos + 1 ≤ k →
+      ∃ s' o' cs', readlineLoop S fuel k res s = .ok (s', res ++ Spec.takeLine (payload.drop s.pos)) ∧
+        InvAt S payload G N s' o' cs' ∧ cs'.length ≤ cs.length ∧
+        s'.pos = s.pos + (Spec.takeLine (payload.drop s.pos)).length := by
+  intro k
+  induction k with
+  | zero => intro s o cs res _ _ hk; omega
+  | succ k ih =>
+    intro s o cs res hI hf hk
+    rw [readlineLoop]
+    obtain ⟨s1, o1, cs1, h1, hI1, hl, hp⟩ := read_spec hR hI hf 1
+    rw [h1]
+    have hsr : specRead payload s.pos 1 = (payload.drop s.pos).take 1 := by
+      simp [specRead]
+    rw [hsr] at hp ⊢
+    simp only
+    cases hd : payload.drop s.pos with
+    | nil =>
+      rw [hd] at hp
+      refine ⟨s1, o1, cs1, by simp [Spec.takeLine], hI1, hl, by simpa [Spec.takeLine] using hp⟩
+    | cons b r =>
+      rw [hd] at hp
+      have hdrop : payload.drop s1.pos = r := by
+        rw [hp]
+        have : payload.drop s.pos = [b] ++ r := by rw [hd]; rfl
+        simpa using drop_add_of_rem this
+      have hlenp : payload.length - s.pos = r.length + 1 := by
+        have := congrArg List.length hd
+        simpa using this
+      by_cases hb : b = 10
+      · subst hb
+        refine ⟨s1, o1, cs1, by simp [Spec.takeLine], hI1, hl, by simpa [Spec.takeLine] using hp⟩
+      · obtain ⟨s', o', cs', g1, g2, g3, g4⟩ := ih s1 o1 cs1 (res ++ [b]) hI1 (by omega)
+          (by simp at hp; omega)
+        refine ⟨s', o', cs', ?_, g2, by omega, ?_⟩
+        · simp [hb]
+          rw [g1, hdrop, takeLine_cons_ne b r hb]; simp
+        · rw [g4, hdrop, takeLine_cons_ne b r hb]; simp at hp ⊢; omega
+
+theorem rewind_inv (hR : Regular S payload G N) {s : ZFile σ} {o : Nat} {cs : List Bytes}
+    (hI : InvAt S payload G N s o cs) :
+    ∃ cs0, InvAt S payload G N (rewind S s) 0 cs0 := by
+  obtain ⟨hg, cs0, hy, hfl, hlen⟩ := hR.rewind_yields s.src hI.good
+  exact ⟨cs0,
+    { mode := Or.inl rfl
+      good := hg
+      off := rfl
+      off_le := Nat.zero_le _
+      yields := hy
+      len_le := hlen
+      pos_le := Nat.zero_le _
+      rem := by simp [rewind, hfl]
+      eof := fun h => by simp [rewind] at h
+      size := hI.size }⟩
+
+theorem seekAbs_spec (hR : Regular S payload G N) {fuel : Nat} {s : ZFile σ} {o : Nat} {cs : List Bytes}
+    (hI : InvAt S payload G N s o cs) (hf : N + 2 ≤ fuel) (t : Int) (h0 : 0 ≤ t) :
+    ∃ s' o' cs', seekAbs S fuel t s = .ok (s', min t.toNat payload.length) ∧
+      InvAt S payload G N s' o' cs' ∧ s'.pos = min t.toNat payload.length := by
+  unfold seekAbs
+  have hcs := hI.len_le
+  have hpl := hI.pos_le
+  by_cases hlt : t < (s.pos : Int)
+  · simp only [hlt, if_true]
+    obtain ⟨cs0, hI0⟩ := rewind_inv hR hI
+    have := hI0.len_le
+    obtain ⟨s', o', cs', h1, h2, _, h4⟩ := readBlock_spec (fuel := fuel) hR hI0 h0 (by omega)
+    rw [h1]
+    have hp : s'.pos = min t.toNat payload.length := by
+      rw [h4]; simp [rewind, List.length_take]
+    exact ⟨s', o', cs', by simp [hp], h2, hp⟩
+  · simp only [hlt, if_false]
+    obtain ⟨s', o', cs', h1, h2, _, h4⟩ := readBlock_spec (fuel := fuel) hR hI (n := t - s.pos) (by omega) (by omega)
+    rw [h1]
+    have hp : s'.pos = min t.toNat payload.length := by
+      rw [h4, List.length_take, List.length_drop]; omega
+    exact ⟨s', o', cs', by simp [hp], h2, hp⟩
+
+/-- The absolute target of `seek(off, w)` on the reference stream. -/
+def specTarget (payload : Bytes) (pos : Nat) (off w : Int) : Int :=
+  if w = 0 then off else if w = 1 then (pos : Int) + off else (payload.length : Int) + off
+
+theorem seek_spec (hR : Regular S payload G N) {fuel : Nat} {s : ZFile σ} {o : Nat} {cs : List Bytes}
+    (hI : InvAt S payload G N s o cs) (hf : N + 2 ≤ fuel) (off w : Int) (hw : w = 0 ∨ w = 1 ∨ w = 2)
+    (h0 : 0 ≤ specTarget payload s.pos off w) :
+    ∃ s' o' cs', seek S fuel off w s =
+        .ok (s', min (specTarget payload s.pos off w).toNat payload.length) ∧
+      InvAt S payload G N s' o' cs' ∧ s'.pos = min (specTarget payload s.pos off w).toNat payload.length := by
+  unfold seek
+  rw [checkCanRead_ok hI]
+  simp only
+  rcases hw with hw | hw | hw
+  · subst hw
+    simp only [specTarget, if_true] at h0 ⊢
+    exact seekAbs_spec hR hI hf off h0
+  · subst hw
+    simp only [specTarget, show ¬ ((1 : Int) = 0) by omega, if_false, if_true] at h0 ⊢
+    exact seekAbs_spec hR hI hf _ h0
+  · subst hw
+    simp only [specTarget, show ¬ ((2 : Int) = 0) by omega, show ¬ ((2 : Int) = 1) by omega,
+      if_false, if_true] at h0 ⊢
+    by_cases hs : s.size < 0
+    · simp only [hs, if_true]
+      have := hI.len_le
+      obtain ⟨s1, o1, h1, hI1, hm, hp⟩ := readAll_spec (fuel := fuel) hR hI (by omega)
+      rw [h1]
+      simp only
+      have hsz : s1.size = (payload.length : Int) := (hI1.eof hm).2.2
+      rw [hsz]
+      obtain ⟨s', o', cs', g1, g2, g3⟩ := seekAbs_spec hR hI1 hf _ h0
+      exact ⟨s', o', cs', g1, g2, g3⟩
+    · simp only [hs, if_false]
+      have hsz : s.size = (payload.length : Int) := by
+        rcases hI.size with h | h
+        · rw [h] at hs; omega
+        · exact h
+      rw [hsz]
+      exact seekAbs_spec hR hI hf _ h0
+
+/-- One operation: the file object answers what the reference stream answers, and the invariant
+(hence the abstraction `(payload, pos)`) is kept. -/
+theorem applyOp_refines (hR : Regular S payload G N) {fuel : Nat} {s : ZFile σ} {o : Nat} {cs : List Bytes}
+    (hI : InvAt S payload G N s o cs) (hf : N + payload.length + 2 ≤ fuel)
+    (op : Op) (pos' : Nat) (out : Out) (hspec : Spec.applyOp payload s.pos op = some (pos', out)) :
+    ∃ s' o' cs', applyOp S fuel s op = (s', out) ∧ InvAt S payload G N s' o' cs' ∧ s'.pos = pos' := by
+  have hcs := hI.len_le
+  cases op with
+  | read n =>
+    obtain ⟨s', o', cs', h1, h2, _, h4⟩ := read_spec (fuel := fuel) hR hI (by omega) n
+    simp only [applyOp, h1, outOf]
+    simp only [Spec.applyOp] at hspec
+    unfold specRead at h4 ⊢
+    by_cases hn : n < 0
+    · simp only [hn, if_true] at hspec h4 ⊢
+      cases hspec
+      exact ⟨s', o', cs', rfl, h2, h4⟩
+    · simp only [hn, if_false] at hspec h4 ⊢
+      cases hspec
+      exact ⟨s', o', cs', rfl, h2, h4⟩
+  | readinto n =>
+    obtain ⟨s', o', cs', h1, h2, _, h4⟩ := read_spec (fuel := fuel) hR hI (by omega) (n : Int)
+    simp only [applyOp, readinto, h1, outOf]
+    simp only [Spec.applyOp] at hspec
+    have : specRead payload s.pos (n : Int) = (payload.drop s.pos).take n := by
+      unfold specRead
+      have : ¬ ((n : Int) < 0) := by omega
+      simp [this]
+    rw [this] at h4 ⊢
+    cases hspec
+    exact ⟨s', o', cs', rfl, h2, h4⟩
+  | readline =>
+    obtain ⟨s', o', cs', h1, h2, _, h4⟩ := readlineLoop_spec hR fuel fuel s o cs [] hI (by omega) (by omega)
+    simp only [applyOp, readline, h1, outOf]
+    simp only [Spec.applyOp] at hspec
+    cases hspec
+    exact ⟨s', o', cs', by simp, h2, h4⟩
+  | tell =>
+    simp only [Spec.applyOp] at hspec
+    cases hspec
+    have : tell s = .ok s.pos := by
+      unfold tell
+      rcases hI.mode with h | h <;> rw [h]
+    simp only [applyOp, this]
+    exact ⟨s, o, cs, rfl, hI, rfl⟩
+  | seek off w =>
+    simp only [Spec.applyOp] at hspec
+    by_cases hw : w = 0 ∨ w = 1 ∨ w = 2
+    · simp only [hw, if_true] at hspec
+      have ht : (if w = 0 then off else if w = 1 then (s.pos : Int) + off else (payload.length : Int) + off)
+          = specTarget payload s.pos off w := rfl
+      rw [ht] at hspec
+      by_cases hneg : specTarget payload s.pos off w < 0
+      · simp [hneg] at hspec
+      · simp only [hneg, if_false] at hspec
+        cases hspec
+        obtain ⟨s', o', cs', h1, h2, h3⟩ := seek_spec (fuel := fuel) hR hI (by omega) off w hw (by omega)
+        simp only [applyOp, h1, outOf]
+        exact ⟨s', o', cs', rfl, h2, h3⟩
+    · simp only [hw, if_false] at hspec
+      cases hspec
+      have : seek S fuel off w s = .error (.exc .valueError) := by
+        unfold seek
+        rw [checkCanRead_ok hI]
+        have h0 : ¬ w = 0 := fun h => hw (Or.inl h)
+        have h1 : ¬ w = 1 := fun h => hw (Or.inr (Or.inl h))
+        have h2 : ¬ w = 2 := fun h => hw (Or.inr (Or.inr h))
+        simp [h0, h1, h2]
+      simp only [applyOp, this, outOf]
+      exact ⟨s, o, cs, rfl, hI, rfl⟩
+  | close => simp [Spec.applyOp] at hspec
+
+theorem runOps_refines (hR : Regular S payload G N) {fuel : Nat} (hf : N + payload.length + 2 ≤ fuel) :
+    ∀ (ops : List Op) (s : ZFile σ) (o : Nat) (cs : List Bytes) (pos' : Nat) (outs : List Out),
+      InvAt S payload G N s o cs → Spec.run payload s.pos ops = some (pos', outs) →
+      ∃ s' o' cs', runOps S fuel s ops = (s', outs) ∧ InvAt S payload G N s' o' cs' ∧ s'.pos = pos' := by
+  intro ops
+  induction ops with
+  | nil =>
+    intro s o cs pos' outs hI hs
+    simp only [Spec.run] at hs
+    cases hs
+    exact ⟨s, o, cs, rfl, hI, rfl⟩
+  | cons op ops ih =>
+    intro s o cs pos' outs hI hs
+    simp only [Spec.run] at hs
+    cases h1 : Spec.applyOp payload s.pos op with
+    | none => simp [h1] at hs
+    | some r =>
+      obtain ⟨p1, o1⟩ := r
+      simp only [h1] at hs
+      cases h2 : Spec.run payload p1 ops with
+      | none => simp [h2] at hs
+      | some r2 =>
+        obtain ⟨p2, os⟩ := r2
+        simp only [h2] at hs
+        simp only [Option.some.injEq, Prod.mk.injEq] at hs
+        obtain ⟨hs1, hs2⟩ := hs
+        subst hs1 hs2
+        obtain ⟨s1, oo1, cs1, g1, g2, g3⟩ := applyOp_refines hR hI hf op p1 o1 h1
+        subst g3
+        obtain ⟨s2, oo2, cs2, k1, k2, k3⟩ := ih s1 oo1 cs1 p2 os g2 h2
+        exact ⟨s2, oo2, cs2, by simp [runOps, g1, k1], k2, k3⟩
+
 end
+
+/-! ### The chunk-list source (C13) -/
+
+theorem chunk_yields (all : List Bytes) : ∀ rest : List Bytes, Yields chunkSource ⟨all, rest⟩ rest
+  | [] => Yields.eof rfl
+  | _ :: r => Yields.chunk (src' := ⟨all, r⟩) rfl (chunk_yields all r)
+
+theorem chunk_regular (chunks : List Bytes) :
+    Regular chunkSource chunks.flatten (fun c => c.all = chunks) chunks.length where
+  rewind_yields := by
+    intro src h
+    refine ⟨h, chunks, ?_, rfl, Nat.le_refl _⟩
+    have := chunk_yields chunks chunks
+    simpa [chunkSource, h] using this
+  step_good := by
+    intro src b src' h hs
+    simp only [chunkSource] at hs
+    split at hs
+    · cases hs
+    · cases hs; exact h
+
+theorem openChunks_inv (chunks : List Bytes) :
+    InvAt chunkSource chunks.flatten (fun c => c.all = chunks) chunks.length (openChunks chunks) 0 chunks where
+  mode := Or.inl rfl
+  good := rfl
+  off := rfl
+  off_le := Nat.zero_le _
+  yields := chunk_yields chunks chunks
+  len_le := Nat.le_refl _
+  pos_le := Nat.zero_le _
+  rem := by simp [openChunks, openRead]
+  eof := fun h => by simp [openChunks, openRead] at h
+  size := Or.inl rfl
+
+/-! ### Write side -/
+
+theorem writeAll_spec {γ : Type} (C : Compressor γ) :
+    ∀ (ds : List Bytes) (w : WFile γ), w.mode = .write →
+      ∃ w2, WFile.writeAll C w ds = .ok w2 ∧ w2.mode = .write ∧ w2.handed = w.handed ++ ds ∧
+        w2.flushes = w.flushes ∧ w2.pos = w.pos + ds.flatten.length ∧
+        w2.fp ++ C.flush w2.comp = w.fp ++ C.stream w.comp ds := by
+  intro ds
+  induction ds with
+  | nil => intro w hm; exact ⟨w, rfl, hm, by simp, rfl, by simp, by simp [Compressor.stream]⟩
+  | cons d ds ih =>
+    intro w hm
+    simp only [WFile.writeAll, WFile.write, hm]
+    obtain ⟨w2, h1, h2, h3, h4, h5, h6⟩ := ih
+      { w with comp := (C.compress w.comp d).1, fp := w.fp ++ (C.compress w.comp d).2,
+               pos := w.pos + d.length, handed := w.handed ++ [d] } hm
+    simp only [hm] at h1
+    refine ⟨w2, h1, h2, by simp [h3], h4, by simp [h5]; omega, ?_⟩
+    rw [h6]; simp [Compressor.stream]
+
+/-! ### The raw-block source (C14) -/
+
+theorem rawStepOld_of_no_unused (c : Codec) (r : RawSrc) (hu : r.dec.unused = []) :
+    rawStepOld c r =
+      if (r.file.drop r.fpos).take BUFFER_SIZE = [] then .eof
+      else
+        match r.dec.decompress c ((r.file.drop r.fpos).take BUFFER_SIZE) with
+        | none => .err .zlibError
+        | some (d', out) =>
+          .chunk out { r with fpos := r.fpos + ((r.file.drop r.fpos).take BUFFER_SIZE).length, dec := d' } := by
+  simp [rawStepOld, fpRead, hu]
+  rfl
+
+theorem rawStepOld_of_unused (c : Codec) (r : RawSrc) (hu : r.dec.unused ≠ []) :
+    rawStepOld c r =
+      match r.dec.decompress c r.dec.unused with
+      | none => .err .zlibError
+      | some (d', out) => .chunk out { r with dec := d' } := by
+  simp [rawStepOld, hu]
+  rfl
+
+/-- Whatever `decompress` returns, the new decompressor state is well formed. -/
+theorem decompress_wf (c : Codec) (d d' : Decomp) (x out : Bytes)
+    (h : d.decompress c x = some (d', out)) : d'.WF := by
+  unfold Decomp.decompress at h
+  intro he
+  split at h
+  · rename_i hd; cases h; simp_all
+  · split at h
+    · cases h
+    · split at h <;> cases h <;> simp_all
+
+theorem take_block_length (f : Bytes) (p : Nat) :
+    ((f.drop p).take BUFFER_SIZE).length = min BUFFER_SIZE (f.length - p) := by
+  simp [List.length_take, List.length_drop]
+
+/-- One loop body of the REPAIRED `_fill_buffer` that delivers a chunk has consumed one raw block. -/
+theorem rawStep_chunk_blocks (c : Codec) (r r' : RawSrc) (b : Bytes) (hwf : r.dec.WF)
+    (h : rawStep c r = .chunk b r') : blocksLeft r' + 1 ≤ blocksLeft r ∧ r'.dec.WF := by
+  unfold rawStep at h
+  by_cases he : r.dec.eof = true
+  · simp [he] at h
+  · have he' : r.dec.eof = false := by simpa using he
+    simp only [he', Bool.false_eq_true, if_false] at h
+    rw [rawStepOld_of_no_unused c r (hwf he')] at h
+    split at h
+    · cases h
+    · rename_i hne
+      split at h
+      · cases h
+      · rename_i d' out hd
+        cases h
+        refine ⟨?_, decompress_wf c _ _ _ _ hd⟩
+        have hl := take_block_length r.file r.fpos
+        have hpos : 0 < ((r.file.drop r.fpos).take BUFFER_SIZE).length := List.length_pos_iff.mpr hne
+        simp only [blocksLeft, BUFFER_SIZE] at *
+        omega
+
+/-- TERMINATION MEASURE of the repaired `_fill_buffer`: the number of raw blocks left in `_fp`. -/
+theorem fillLoop_raw_terminates (c : Codec) :
+    ∀ (fuel : Nat) (s : ZFile RawSrc), s.src.dec.WF → blocksLeft s.src + 1 ≤ fuel →
+      fillLoop (rawSource c) fuel s ≠ .error .outOfFuel := by
+  intro fuel
+  induction fuel with
+  | zero => intro s _ h; omega
+  | succ fuel ih =>
+    intro s hwf hf
+    rw [fillLoop.eq_def]
+    by_cases hoff : s.bufferOffset = (s.buffer.length : Int)
+    · simp only [hoff, if_true]
+      cases hs : (rawSource c).step s.src with
+      | eof => simp
+      | err e => simp
+      | chunk b r' =>
+        simp only
+        obtain ⟨h1, h2⟩ := rawStep_chunk_blocks c s.src r' b hwf hs
+        exact ih _ h2 (by simp only; omega)
+    · simp [hoff]
+
+/-- DIVERGENCE of the unchanged `_fill_buffer` (finding F7): once the decompressor has seen the end of the
+stream and holds unused data, every loop body feeds `unused_data` back, gets `b''`, and is back in the same
+situation (with `unused_data` doubled): no amount of fuel suffices. -/
+theorem fillLoop_old_diverges (c : Codec) :
+    ∀ (fuel : Nat) (s : ZFile RawSrc), s.bufferOffset = (s.buffer.length : Int) →
+      s.src.dec.eof = true → s.src.dec.unused ≠ [] →
+      fillLoop (rawSourceOld c) fuel s = .error .outOfFuel := by
+  intro fuel
+  induction fuel with
+  | zero => intro s h _ _; rw [fillLoop.eq_def]; simp [h]
+  | succ fuel ih =>
+    intro s hoff he hu
+    rw [fillLoop.eq_def]
+    simp only [hoff, if_true]
+    have hstep : (rawSourceOld c).step s.src =
+        .chunk [] { s.src with dec := { s.src.dec with unused := s.src.dec.unused ++ s.src.dec.unused } } := by
+      show rawStepOld c s.src = _
+      rw [rawStepOld_of_unused c _ hu]
+      simp [Decomp.decompress, he]
+    rw [hstep]
+    simp only
+    exact ih _ (by simp) (by simpa using he) (by simpa using hu)
+
+/-! ### A file whose prefixes the codec decodes monotonically is a byte stream (repaired code) -/
+
+/-- The codec on the file `f` (explicit hypothesis, CPython's zlib is not verified): no prefix of `f` is
+rejected; `out k` is everything decodable from the first `k` bytes, growing monotonically; `E` is the offset
+just after the end-of-stream marker if `f` contains one, and nothing more comes out after it. -/
+structure StreamLaw (c : Codec) (f : Bytes) (E : Option Nat) (out : Nat → Bytes) : Prop where
+  inflate_eq : ∀ k, k ≤ f.length →
+    c.inflate (f.take k) = some (out k, E.filter (fun e => decide (e ≤ k)))
+  mono : ∀ k k', k ≤ k' → k' ≤ f.length → out k <+: out k'
+  out_zero : out 0 = []
+  stable : ∀ e k, E = some e → e ≤ k → k ≤ f.length → out k = out e
+  eof_pos : ∀ e, E = some e → 0 < e ∧ e ≤ f.length
+
+/-- Invariant of the raw source while reading `f`. -/
+structure RawGood (f : Bytes) (E : Option Nat) (out : Nat → Bytes) (r : RawSrc) : Prop where
+  file : r.file = f
+  fpos_le : r.fpos ≤ f.length
+  fed : r.dec.fed = f.take r.fpos
+  outLen : r.dec.outLen = (out r.fpos).length
+  noeof : r.dec.eof = false → r.dec.unused = [] ∧ ∀ e, E = some e → r.fpos < e
+  ateof : r.dec.eof = true → ∃ e, E = some e ∧ e ≤ r.fpos
+
+theorem take_length_take {α : Type} (l : List α) (n : Nat) : l.take (l.take n).length = l.take n := by
+  have h : (l.take n).take (l.take n).length = l.take n := List.take_length
+  rw [List.take_take] at h
+  have : min (l.take n).length n = (l.take n).length := by
+    rw [List.length_take]; omega
+  rw [this] at h
+  exact h
+
+theorem rawStep_good {c : Codec} {f : Bytes} {E : Option Nat} {out : Nat → Bytes}
+    (law : StreamLaw c f E out) (r : RawSrc) (hg : RawGood f E out r) :
+    (rawStep c r = .eof ∧ out r.fpos = out f.length) ∨
+    (∃ b r', rawStep c r = .chunk b r' ∧ RawGood f E out r' ∧ out r.fpos ++ b = out r'.fpos ∧
+      blocksLeft r' + 1 ≤ blocksLeft r) := by
+  cases he : r.dec.eof with
+  | true =>
+    left
+    refine ⟨by simp [rawStep, he], ?_⟩
+    obtain ⟨e, h1, h2⟩ := hg.ateof he
+    rw [law.stable e r.fpos h1 h2 hg.fpos_le, law.stable e f.length h1 (law.eof_pos e h1).2 (Nat.le_refl _)]
+  | false =>
+    obtain ⟨hu, hE⟩ := hg.noeof he
+    have hstep : rawStep c r = rawStepOld c r := by simp [rawStep, he]
+    rw [hstep, rawStepOld_of_no_unused c r hu, hg.file]
+    by_cases hB : (f.drop r.fpos).take BUFFER_SIZE = []
+    · left
+      refine ⟨by simp [hB], ?_⟩
+      have := congrArg List.length hB
+      rw [List.length_take, List.length_drop] at this
+      have hfp := hg.fpos_le
+      have : r.fpos = f.length := by simp [BUFFER_SIZE] at this; omega
+      rw [this]
+    · right
+      simp only [hB, if_false]
+      have hlen := take_block_length f r.fpos
+      have hpos : 0 < ((f.drop r.fpos).take BUFFER_SIZE).length := List.length_pos_iff.mpr hB
+      have hfp := hg.fpos_le
+      have hfp' : r.fpos + ((f.drop r.fpos).take BUFFER_SIZE).length ≤ f.length := by
+        rw [hlen]; omega
+      have hfed : r.dec.fed ++ (f.drop r.fpos).take BUFFER_SIZE
+          = f.take (r.fpos + ((f.drop r.fpos).take BUFFER_SIZE).length) := by
+        rw [hg.fed, List.take_add, take_length_take]
+      have hinf := law.inflate_eq _ hfp'
+      have hpre := law.mono r.fpos _ (Nat.le_add_right _ _) hfp'
+      have happ := List.prefix_iff_eq_append.mp hpre
+      have hbl : blocksLeft { r with fpos := r.fpos + ((f.drop r.fpos).take BUFFER_SIZE).length } + 1
+          ≤ blocksLeft r := by
+        simp only [blocksLeft, hg.file, BUFFER_SIZE] at *
+        omega
+      unfold Decomp.decompress
+      simp only [he, Bool.false_eq_true, if_false, hfed, hinf]
+      cases hE' : E with
+      | none =>
+        simp only [Option.filter_none]
+        refine ⟨_, _, rfl, ?_, ?_, by simpa [blocksLeft, hg.file] using hbl⟩
+        · exact
+            { file := rfl
+              fpos_le := hfp'
+              fed := rfl
+              outLen := rfl
+              noeof := fun _ => ⟨rfl, fun e h => by cases h⟩
+              ateof := fun h => by simp at h }
+        · simp only; rw [hg.outLen]; exact happ
+      | some e =>
+        by_cases hle : e ≤ r.fpos + ((f.drop r.fpos).take BUFFER_SIZE).length
+        · simp only [Option.filter_some, hle, decide_true, if_true]
+          refine ⟨_, _, rfl, ?_, ?_, by simpa [blocksLeft, hg.file] using hbl⟩
+          · exact
+              { file := rfl
+                fpos_le := hfp'
+                fed := rfl
+                outLen := rfl
+                noeof := fun h => by simp at h
+                ateof := fun _ => ⟨e, rfl, hle⟩ }
+          · simp only; rw [hg.outLen]; exact happ
+        · simp only [Option.filter_some, hle, decide_false, Bool.false_eq_true, if_false]
+          refine ⟨_, _, rfl, ?_, ?_, by simpa [blocksLeft, hg.file] using hbl⟩
+          · exact
+              { file := rfl
+                fpos_le := hfp'
+                fed := rfl
+                outLen := rfl
+                noeof := fun _ => ⟨rfl, fun e' h => by cases h; simp only; omega⟩
+                ateof := fun h => by simp at h }
+          · simp only; rw [hg.outLen]; exact happ
+
+theorem raw_yields {c : Codec} {f : Bytes} {E : Option Nat} {out : Nat → Bytes}
+    (law : StreamLaw c f E out) :
+    ∀ (n : Nat) (r : RawSrc), RawGood f E out r → blocksLeft r ≤ n →
+      ∃ cs, Yields (rawSource c) r cs ∧ out r.fpos ++ cs.flatten = out f.length ∧
+        cs.length ≤ blocksLeft r := by
+  intro n
+  induction n with
+  | zero =>
+    intro r hg hn
+    rcases rawStep_good law r hg with ⟨h1, h2⟩ | ⟨b, r', _, _, _, h4⟩
+    · exact ⟨[], Yields.eof h1, by simpa using h2, by simp⟩
+    · omega
+  | succ n ih =>
+    intro r hg hn
+    rcases rawStep_good law r hg with ⟨h1, h2⟩ | ⟨b, r', h1, h2, h3, h4⟩
+    · exact ⟨[], Yields.eof h1, by simpa using h2, by simp⟩
+    · obtain ⟨cs, g1, g2, g3⟩ := ih r' h2 (by omega)
+      refine ⟨b :: cs, Yields.chunk h1 g1, ?_, by simp; omega⟩
+      rw [List.flatten_cons, ← List.append_assoc, h3, g2]
+
+theorem rawGood_rewind {c : Codec} {f : Bytes} {E : Option Nat} {out : Nat → Bytes}
+    (law : StreamLaw c f E out) (r : RawSrc) (hf : r.file = f) : RawGood f E out (rawRewind r) where
+  file := hf
+  fpos_le := Nat.zero_le _
+  fed := by simp [rawRewind, Decomp.fresh]
+  outLen := by simp [rawRewind, Decomp.fresh, law.out_zero]
+  noeof := fun _ => ⟨rfl, fun e h => (law.eof_pos e h).1⟩
+  ateof := fun h => by simp [rawRewind, Decomp.fresh] at h
+
+/-- Chunks the file can be spread over: at most one per raw block. -/
+def rawBound (f : Bytes) : Nat := f.length / BUFFER_SIZE + 1
+
+theorem raw_regular {c : Codec} {f : Bytes} {E : Option Nat} {out : Nat → Bytes}
+    (law : StreamLaw c f E out) :
+    Regular (rawSource c) (out f.length) (RawGood f E out) (rawBound f) where
+  rewind_yields := by
+    intro src hg
+    have hg' := rawGood_rewind law src hg.file
+    refine ⟨hg', ?_⟩
+    obtain ⟨cs, h1, h2, h3⟩ := raw_yields law _ _ hg' (Nat.le_refl _)
+    refine ⟨cs, h1, ?_, ?_⟩
+    · simpa [rawRewind, law.out_zero] using h2
+    · have : blocksLeft (rawRewind src) ≤ rawBound f := by
+        simp only [blocksLeft, rawRewind, rawBound, hg.file, BUFFER_SIZE]; omega
+      omega
+  step_good := by
+    intro src b src' hg hs
+    rcases rawStep_good law src hg with ⟨h1, _⟩ | ⟨b0, r0, h1, h2, _, _⟩
+    · rw [show (rawSource c).step src = rawStep c src from rfl, h1] at hs; cases hs
+    · rw [show (rawSource c).step src = rawStep c src from rfl, h1] at hs; cases hs; exact h2
+
+theorem openRaw_inv {c : Codec} {f : Bytes} {E : Option Nat} {out : Nat → Bytes}
+    (law : StreamLaw c f E out) :
+    ∃ cs, InvAt (rawSource c) (out f.length) (RawGood f E out) (rawBound f) (openRaw f) 0 cs := by
+  have hg : RawGood f E out ⟨f, 0, .fresh⟩ := rawGood_rewind law ⟨f, 0, .fresh⟩ rfl
+  obtain ⟨_, cs, h1, h2, h3⟩ := (raw_regular law).rewind_yields _ hg
+  exact ⟨cs,
+    { mode := Or.inl rfl
+      good := hg
+      off := rfl
+      off_le := Nat.zero_le _
+      yields := h1
+      len_le := h3
+      pos_le := Nat.zero_le _
+      rem := by simp [openRaw, openRead, h2]
+      eof := fun h => by simp [openRaw, openRead] at h
+      size := Or.inl rfl }⟩
+
+/-- The codec law for a VALID file `raw` of payload `p` (explicit hypothesis): every strict prefix decodes
+without error to `out k`, monotonically, without reporting end of stream; the whole file — also when followed
+by arbitrary bytes `t` — decodes to `p` and reports the end of the stream at `|raw|`. -/
+structure ValidFile (c : Codec) (raw p : Bytes) (out : Nat → Bytes) : Prop where
+  prefix_ok : ∀ k, k < raw.length → c.inflate (raw.take k) = some (out k, none)
+  whole : ∀ t, c.inflate (raw ++ t) = some (p, some raw.length)
+  mono : ∀ k k', k ≤ k' → k' ≤ raw.length → out k <+: out k'
+  out_zero : out 0 = []
+  out_whole : out raw.length = p
+  nonempty : 0 < raw.length
+
+theorem trunc_law {c : Codec} {raw p : Bytes} {out : Nat → Bytes} (hv : ValidFile c raw p out)
+    (k : Nat) (hk : k < raw.length) : StreamLaw c (raw.take k) none out where
+  inflate_eq := by
+    intro j hj
+    have hl : (raw.take k).length = k := by rw [List.length_take]; omega
+    rw [hl] at hj
+    rw [List.take_take, Nat.min_eq_left hj, hv.prefix_ok j (by omega)]
+    simp
+  mono := by
+    intro a b hab hb
+    have hl : (raw.take k).length = k := by rw [List.length_take]; omega
+    exact hv.mono a b hab (by omega)
+  out_zero := hv.out_zero
+  stable := by intro e k' h; cases h
+  eof_pos := by intro e h; cases h
+
+theorem trail_law {c : Codec} {raw p : Bytes} {out : Nat → Bytes} (hv : ValidFile c raw p out)
+    (t : Bytes) :
+    StreamLaw c (raw ++ t) (some raw.length) (fun j => if j < raw.length then out j else p) where
+  inflate_eq := by
+    intro j hj
+    by_cases hlt : j < raw.length
+    · have : (raw ++ t).take j = raw.take j := List.take_append_of_le_length (by omega)
+      rw [this, hv.prefix_ok j hlt]
+      have : ¬ raw.length ≤ j := by omega
+      simp [hlt, Option.filter_some, this]
+    · have : (raw ++ t).take j = raw ++ t.take (j - raw.length) := by
+        rw [List.take_append, List.take_of_length_le (by omega)]
+      rw [this, hv.whole]
+      have : raw.length ≤ j := by omega
+      simp [hlt, Option.filter_some, this]
+  mono := by
+    intro a b hab hb
+    by_cases h1 : b < raw.length
+    · have h2 : a < raw.length := by omega
+      simp only [h1, h2, if_true]
+      exact hv.mono a b hab (by omega)
+    · by_cases h2 : a < raw.length
+      · simp only [h1, h2, if_true, if_false]
+        rw [← hv.out_whole]
+        exact hv.mono a raw.length (by omega) (Nat.le_refl _)
+      · simp only [h1, h2, if_false]
+        exact List.prefix_refl _
+  out_zero := by simp [hv.nonempty, hv.out_zero]
+  stable := by
+    intro e k he hk _
+    cases he
+    have : ¬ k < raw.length := by omega
+    simp [this]
+  eof_pos := by
+    intro e he
+    cases he
+    exact ⟨hv.nonempty, by simp⟩
+
+/-! ### `load` through `BufferedReader` on a file that is a byte stream -/
+
+theorem IO_BUFFER_SIZE_eq : IO_BUFFER_SIZE = 1048576 := rfl
+
+theorem loadZ_spec {σ : Type} {S : Source σ} {payload : Bytes} {G : σ → Prop} {N : Nat}
+    (hR : Regular S payload G N) {fuel : Nat} (hf : N + 2 ≤ fuel) (need : Nat) :
+    ∀ (rounds got : Nat) (s : ZFile σ) (o : Nat) (cs : List Bytes),
+      InvAt S payload G N s o cs → got < need →
+      (payload.length - s.pos + (IO_BUFFER_SIZE - 1)) / IO_BUFFER_SIZE + 1 ≤ rounds →
+      loadZ S fuel need rounds got s =
+        if need ≤ got + (payload.length - s.pos) then .returnsOriginal else .raises := by
+  intro rounds
+  induction rounds with
+  | zero => intro got s o cs _ _ h; exact absurd h (Nat.not_succ_le_zero _)
+  | succ rounds ih =>
+    intro got s o cs hI hg hr
+    have hcs := hI.len_le
+    obtain ⟨s1, o1, cs1, h1, hI1, _, hp⟩ := read_spec (fuel := fuel) hR hI (by omega) (IO_BUFFER_SIZE : Int)
+    have hsr : specRead payload s.pos (IO_BUFFER_SIZE : Int) = (payload.drop s.pos).take IO_BUFFER_SIZE := by
+      unfold specRead
+      have : ¬ ((IO_BUFFER_SIZE : Int) < 0) := by omega
+      simp [this]
+    rw [hsr] at h1 hp
+    have hlen : ((payload.drop s.pos).take IO_BUFFER_SIZE).length
+        = min IO_BUFFER_SIZE (payload.length - s.pos) := by
+      rw [List.length_take, List.length_drop]
+    rw [loadZ, readinto, h1]
+    simp only
+    have hpl := hI.pos_le
+    by_cases hrem : payload.length - s.pos = 0
+    · have : (payload.drop s.pos).take IO_BUFFER_SIZE = [] := by
+        apply List.eq_nil_of_length_eq_zero; rw [hlen, hrem]; simp
+      rw [this]
+      have : ¬ need ≤ got + (payload.length - s.pos) := by omega
+      simp [this]
+    · have hne : ((payload.drop s.pos).take IO_BUFFER_SIZE).isEmpty = false := by
+        rw [List.isEmpty_eq_false_iff]
+        intro h
+        have := congrArg List.length h
+        rw [hlen, IO_BUFFER_SIZE_eq] at this
+        simp at this; omega
+      simp only [hne, Bool.false_eq_true, if_false]
+      by_cases hge : got + ((payload.drop s.pos).take IO_BUFFER_SIZE).length ≥ need
+      · have : need ≤ got + (payload.length - s.pos) := by rw [hlen] at hge; omega
+        rw [if_pos hge, if_pos this]
+      · simp only [hge, if_false]
+        rw [ih _ s1 o1 cs1 hI1 (by omega) (by
+          rw [hp, hlen, IO_BUFFER_SIZE_eq] at *
+          omega)]
+        have : got + ((payload.drop s.pos).take IO_BUFFER_SIZE).length + (payload.length - s1.pos)
+            = got + (payload.length - s.pos) := by
+          rw [hp, hlen]; omega
+        rw [this]
+
+/-! ### The unchanged code on a valid file followed by extra bytes (single raw block) -/
+
+theorem old_readAll_diverges {c : Codec} {raw p : Bytes} {out : Nat → Bytes} (hv : ValidFile c raw p out)
+    (t : Bytes) (ht : t ≠ []) (hlen : (raw ++ t).length ≤ BUFFER_SIZE) :
+    ∀ fuel, readAll (rawSourceOld c) fuel (openRaw (raw ++ t)) = .error .outOfFuel := by
+  intro fuel
+  unfold readAll
+  simp only [openRaw, openRead]
+  rw [show pySliceFrom ([] : Bytes) 0 = [] from rfl]
+  cases fuel with
+  | zero => rfl
+  | succ k =>
+    rw [readAllLoop]
+    -- the first `_fill_buffer` reads the whole file as one raw block
+    have hblock : ((raw ++ t).drop 0).take BUFFER_SIZE = raw ++ t := by
+      simp [List.take_of_length_le hlen]
+    have hne : raw ++ t ≠ [] := by
+      intro h; have := congrArg List.length h; simp at this; exact ht this.2
+    have hstep : rawStepOld c ⟨raw ++ t, 0, .fresh⟩ =
+        .chunk p ⟨raw ++ t, (raw ++ t).length, ⟨raw ++ t, p.length, true, t⟩⟩ := by
+      rw [rawStepOld_of_no_unused c _ rfl]
+      simp only [hblock, hne, if_false]
+      simp [Decomp.decompress, Decomp.fresh, hv.whole t]
+    have hfill1 : fillBuffer (rawSourceOld c) (k + 1)
+        { mode := .read, pos := 0, size := -1, buffer := [], bufferOffset := 0,
+          src := (⟨raw ++ t, 0, .fresh⟩ : RawSrc) } =
+        fillLoop (rawSourceOld c) k
+          { mode := .read, pos := 0, size := -1, buffer := p, bufferOffset := 0,
+            src := (⟨raw ++ t, (raw ++ t).length, ⟨raw ++ t, p.length, true, t⟩⟩ : RawSrc) } := by
+      unfold fillBuffer
+      simp only [show ¬ (Mode.read = Mode.readEof) by decide, if_false]
+      rw [fillLoop.eq_def]
+      simp only [List.length_nil, Int.ofNat_zero, if_true]
+      rw [show (rawSourceOld c).step ⟨raw ++ t, 0, .fresh⟩ = rawStepOld c ⟨raw ++ t, 0, .fresh⟩ from rfl,
+        hstep]
+    rw [hfill1]
+    by_cases hp : p = []
+    · subst hp
+      rw [fillLoop_old_diverges c k _ (by simp) rfl (by simpa using ht)]
+    · rw [fillLoop.eq_def]
+      have : ¬ ((0 : Int) = (p.length : Int)) := by
+        have : 0 < p.length := List.length_pos_iff.mpr hp
+        omega
+      simp only [this, if_false]
+      cases k with
+      | zero => rfl
+      | succ k =>
+        rw [readAllLoop]
+        unfold fillBuffer
+        simp only [show ¬ (Mode.read = Mode.readEof) by decide, if_false]
+        rw [fillLoop_old_diverges c _ _ (by simp) rfl (by simpa using ht)]
 
 end JoblibModel.ZlibFile
